@@ -4,6 +4,8 @@
 pub fn dispatch(cmd: &str, args: &[String]) -> Option<i32> {
     match cmd {
         "provider" => Some(crate::provider::standalone(args)),
+        "emit" => Some(crate::c17::emit_main(args)),
+        "mark" => Some(crate::c11::mark_helper(args)),
         "fakeauth" => Some(crate::c20::fakeauth::standalone(args)),
         _ => None,
     }
